@@ -5,8 +5,8 @@
 # Writes /tmp/seed_out/<Cxx>/<X>.confirm.json and removes the worktree.
 set -u
 P=$1; X=$2
-SRC=/tmp/seed_out/$P
-WT=/var/tmp/cf_${P}_${X}
+SRC=${SEEDSRC:-/tmp/seed_out}/$P
+WT=/var/tmp/cf_${P}_${X}_$$
 OUT=$SRC/$X.confirm.json
 PATCH=$SRC/$X.patch; [ -s $SRC/$X.rebased.patch ] && PATCH=$SRC/$X.rebased.patch
 DEMO=$SRC/${X}_demo.py; [ -s $SRC/${X}_demo.rebased.py ] && DEMO=$SRC/${X}_demo.rebased.py
